@@ -162,6 +162,8 @@ def worker(inst):
         return dispatch_worker(inst, out)
     if kind == "history":
         return history_worker(inst, out)
+    if kind == "termtype":
+        return termtype_worker(inst, out)
     S = _setup()
     A = S["atoms"]
     ax = S["axioms"]
@@ -369,6 +371,88 @@ def history_worker(inst, out):
     return out
 
 
+def _walk_types(t, seen, bad, where):
+    """every term is an instance of its own precise type: type(t) == origin[deep_type(args)], and of the
+    generalisation origin[origins of the argument types]"""
+    from funsor.terms import Funsor
+    from funsor.typing import deep_isinstance, deep_type, get_args, get_origin
+    if not isinstance(t, Funsor) or id(t) in seen:
+        return
+    seen.add(id(t))
+    args = t._ast_values
+    want = get_origin(type(t))[tuple(map(deep_type, args))]
+    if type(t) is not want:
+        bad.append("%s: term %s has type %s but its arguments have types %s" % (where, str(t)[:80], type(t), want))
+    elif not deep_isinstance(t, want):
+        bad.append("%s: term %s is not an instance of its own precise type %s" % (where, str(t)[:80], want))
+
+    def rec(a):
+        if isinstance(a, Funsor):
+            _walk_types(a, seen, bad, where)
+        elif isinstance(a, (tuple, frozenset)):
+            for x in a:
+                rec(x)
+    for a in args:
+        rec(a)
+
+
+def termtype_worker(inst, out):
+    """concrete side check: terms that come out of reinterpretation (children changed type, parent fell through to
+    reflect), out of direct construction afterwards, and out of the program families under the deferred schedules"""
+    import numpy as np
+    import funsor
+    from funsor import ops
+    from funsor.domains import Real
+    from funsor.interpretations import eager, lazy, normalize, reflect
+    from funsor.interpreter import reinterpret
+    from funsor.terms import Number, Stack, Variable
+    _, which = inst
+    bad = []
+    if which == "fold":
+        v, w = Variable("v", Real), Variable("w", Real)
+        folds = [lambda: Number(2.0) * Number(3.0), lambda: Number(1.0) + Number(2.0), lambda: -Number(2.0), lambda: ops.exp(Number(0.0)),
+                 lambda: (Number(2.0) * Number(3.0)) + Number(1.0)]
+        shapes = [lambda f: f() ** v, lambda f: f() < v, lambda f: v ** f(), lambda f: (f() ** v) - w, lambda f: ops.exp(f() ** v),
+                  lambda f: Stack("s", (f() ** v, v * 1.0)), lambda f: (f() ** v) ** (f() ** w), lambda f: (v ** f())(v=w)]
+        for fi, f in enumerate(folds):
+            for si, sh in enumerate(shapes):
+                for interp in (eager, normalize, lazy):
+                    with reflect:
+                        t = sh(f)
+                    with interp:
+                        r = reinterpret(t)
+                    out["obligations"] += 1
+                    n0 = len(bad)
+                    _walk_types(r, set(), bad, "reinterpret[%s] fold %d shape %d" % (interp.__name__, fi, si))
+                    with interp:
+                        r2 = sh(f)          # the same term written directly afterwards (cons cache)
+                    _walk_types(r2, set(), bad, "direct[%s] fold %d shape %d" % (interp.__name__, fi, si))
+                    if len(bad) == n0:
+                        out["discharged"] += 1
+    else:
+        from harness.core import conc_leaves
+        from harness.schedules import SCHEDULES
+        from lang import gen
+        import random
+        rng = random.Random(0)
+        progs = list(gen.depth1("real"))
+        rng.shuffle(progs)
+        for p in progs[:150]:
+            try:
+                leaves = conc_leaves(p, rng)
+                r = SCHEDULES[which](p, leaves)
+            except Exception:
+                continue
+            out["obligations"] += 1
+            n0 = len(bad)
+            _walk_types(r, set(), bad, "%s %s" % (which, p[0]))
+            if len(bad) == n0:
+                out["discharged"] += 1
+    if bad:
+        out.update(status="violation", kind="dispatch", detail=bad[0][:400], replay=dict(problems=bad[:10]))
+    return out
+
+
 def main():
     chk = Check("C16", "model_checking")
     names = QUICK_SHAPES if chk.tier == "quick" else list(SHAPES)
@@ -385,10 +469,11 @@ def main():
     insts += [("trans",) + t for t in trip]
     insts += [("dispatch", w) for w in ("eager_base", "normalize_base", "lazy_base", "sequential_base", "moment_matching_base", "unfold_base", "optimize_base")]
     insts += [("history",)]
+    insts += [("termtype", w) for w in ("fold", "lazy", "reflect", "normalize", "lazy>normalize", "memoize>lazy")]
     chk.map("checks.c16", "worker", insts, chunksize=16)
     chk.bounds = dict(leaf_types=NATOMS, shapes=names, depth="<= 2", relation_on_leaves="every reflexive transitive relation (16 symbolic booleans)")
     chk.assumptions = ["the module-level deep_issubclass is intercepted for leaf pairs only (lru_cache bypassed); everything else is the real code",
-                       "dispatch-order closure and the dispatcher-history side check are exhaustive/concrete, not solver results",
+                       "dispatch-order closure, the dispatcher-history side check and the term/precise-type agreement walk are exhaustive/concrete, not solver results",
                        "independence from cache state beyond the registration-after-dispatch scenario is outside the claim"]
     chk.floor = 300
     chk.finish(rule="reflexivity per shape, agreement with the reference definition per ordered pair of shapes x leaf placement, transitivity per triple (seeded subset in quick); distinct = descriptor",
